@@ -82,17 +82,17 @@ const failKey = "a/x"
 // ---------- operations ----------
 
 type op struct {
-	Kind  string `json:"kind"` // sub subq cancel hook hookq unhook put del get push
-	Q     int    `json:"q"`
-	Priv  int    `json:"priv"`
-	Ref   int    `json:"ref"`
-	Phase int    `json:"phase"`
-	Beh   int    `json:"beh"`
-	W     int    `json:"w"`
-	Key   string `json:"key"`
-	V     int    `json:"v"`
-	Flag  int    `json:"flag"`
-	Del   bool   `json:"del"`
+	Kind  string `json:"kind"` // sub subq cancel hook hookq unhook put del sec setv get push
+	Q     int    `json:"q,omitempty"`
+	Priv  int    `json:"priv,omitempty"`
+	Ref   int    `json:"ref,omitempty"`
+	Phase int    `json:"phase,omitempty"`
+	Beh   int    `json:"beh,omitempty"`
+	W     int    `json:"w,omitempty"`
+	Key   string `json:"key,omitempty"`
+	V     int    `json:"v,omitempty"`
+	Flag  int    `json:"flag,omitempty"`
+	Del   bool   `json:"del,omitempty"`
 }
 
 func (o op) String() string {
@@ -115,6 +115,10 @@ func (o op) String() string {
 		return fmt.Sprintf("delete[%s](%s)", ifaceDefs[o.W].Name, o.Key)
 	case "get":
 		return fmt.Sprintf("get[%s](%s)", ifaceDefs[o.W].Name, o.Key)
+	case "sec":
+		return fmt.Sprintf("MakeSecret[%s](%s)", ifaceDefs[o.W].Name, o.Key)
+	case "setv":
+		return fmt.Sprintf("InsertValue[%s](%s,V=%d)", ifaceDefs[o.W].Name, o.Key, o.V)
 	case "push":
 		d := ""
 		if o.Del {
@@ -433,6 +437,20 @@ func (m *model) apply(o op) *expect {
 		}
 		cur.Del = true
 		m.putChain(x, o.Key, cur)
+	case "sec", "setv":
+		// read-modify-write through the interface: a get followed by a put
+		w := ifaceDefs[o.W]
+		cur, ok := m.getChain(x, o.Key, w)
+		if !ok {
+			break
+		}
+		if w.MakeSecret || o.Kind == "sec" {
+			cur.Secret = true
+		}
+		if o.Kind == "setv" {
+			cur.V = int64(o.V)
+		}
+		m.putChain(x, o.Key, cur)
 	case "push":
 		cur := flagEntry(o.V, o.Flag)
 		cur.Del = o.Del
@@ -484,6 +502,12 @@ func (m *model) enabled(b *bounds) []op {
 	}
 	for _, k := range keys {
 		out = append(out, op{Kind: "del", W: w0, Key: k})
+	}
+	out = append(out, op{Kind: "setv", W: w0, Key: keys[0], V: 0})
+	out = append(out, op{Kind: "sec", W: w0, Key: keys[0]})
+	if b.allPhaseHook { // thorough
+		out = append(out, op{Kind: "setv", W: w0, Key: keys[0], V: 1})
+		out = append(out, op{Kind: "sec", W: w0, Key: keys[1]})
 	}
 	for _, w := range b.ifaces[1:] {
 		out = append(out, op{Kind: "get", W: w, Key: keys[0]})
@@ -680,7 +704,18 @@ func initSystem() error {
 	if st, err := os.Stat("/dev/shm"); err == nil && st.IsDir() {
 		base = "/dev/shm"
 	}
-	d, err := os.MkdirTemp(base, "verif-c14-")
+	// remove directories left behind by runs that were killed
+	if old, _ := filepath.Glob(filepath.Join(base, "verif-c14-p*-*")); old != nil {
+		for _, o := range old {
+			var pid int
+			if _, err := fmt.Sscanf(filepath.Base(o), "verif-c14-p%d-", &pid); err == nil && pid > 0 {
+				if _, err := os.Stat(fmt.Sprintf("/proc/%d", pid)); os.IsNotExist(err) {
+					_ = os.RemoveAll(o)
+				}
+			}
+		}
+	}
+	d, err := os.MkdirTemp(base, fmt.Sprintf("verif-c14-p%d-", os.Getpid()))
 	if err != nil {
 		return err
 	}
@@ -810,6 +845,10 @@ func (w *world) do(o op) (ob observed) {
 		ob.err = w.ifaces[o.W].Put(w.newRec(o.Key, o.V, o.Flag, false))
 	case "del":
 		ob.err = w.ifaces[o.W].Delete(w.name + ":" + o.Key)
+	case "sec":
+		ob.err = w.ifaces[o.W].MakeSecret(w.name + ":" + o.Key)
+	case "setv":
+		ob.err = w.ifaces[o.W].InsertValue(w.name+":"+o.Key, "V", o.V)
 	case "push":
 		r := w.newRec(o.Key, o.V, o.Flag, o.Del)
 		r.Lock()
@@ -1154,7 +1193,7 @@ func runHistory(ctx *vlib.Ctx, cfg config, seedName string, hist []op, verbose b
 			c.Violate("veto-returns-hook-error", hookSite, "veto-without-vetoing-hook", fmt.Sprintf("%v: returned %v although no hook vetoes this operation", where, ob.err), wit(step))
 			res.bad = true
 		case x.res == "ok" && ob.err != nil, x.res == "err" && ob.err == nil:
-			if o.Kind != "get" && o.Kind != "put" && o.Kind != "del" {
+			if o.Kind != "get" && o.Kind != "put" && o.Kind != "del" && o.Kind != "sec" && o.Kind != "setv" {
 				c.Violate("subscribe-cancel-register-succeed", o.Kind, "error-instead-of-ok", fmt.Sprintf("%v: returned %v", where, ob.err), wit(step))
 				res.bad = true
 				break
@@ -1276,13 +1315,15 @@ func plans(c *vlib.Ctx) []plan {
 	big := mk([]string{"a/1", "b/1", "a/2"}, 3, 4, 3, 3, 2, []int{0, 1, 2, 3}, true, true)
 	small := mk([]string{"a/1", "b/1"}, 2, 2, 2, 2, 2, []int{0, 1}, false, false)
 	inj := mk([]string{"a/1", "b/1", failKey}, 3, 4, 3, 3, 2, []int{0, 1, 2, 3}, true, true)
+	// cheapest first; the last one is the largest and is the one a budget would cut
 	return []plan{
-		{config{"hashmap", false}, 4, big},
-		{config{"hashmap", true}, 4, big},
-		{config{"hashmap", false}, 5, small},
+		{config{"injected", false}, 3, inj},
+		{config{"hashmap", true}, 3, big},
 		{config{"bbolt", false}, 4, small},
 		{config{"bbolt", true}, 4, small},
-		{config{"injected", false}, 4, inj},
+		{config{"hashmap", false}, 5, small},
+		{config{"hashmap", true}, 5, small},
+		{config{"hashmap", false}, 4, big},
 	}
 }
 
@@ -1295,12 +1336,12 @@ func main() {
 		}
 		defer os.RemoveAll(rootDir)
 		c.Rule("BFS over histories of {subscribe(query, subscriber privileges), subscribe(reusing the query object of s0), cancel(s_i), registerHook(query, phase, pass|replace|veto), registerHook(reusing the query object of h0), cancelHook(h_i), " +
-			"put/delete/get through interfaces of different privileges, PushUpdate (injected database)} on keys inside/outside the subscribed prefix with values for which the where-condition holds or not and flags none/secret(/crownjewel); " +
+			"put/delete/MakeSecret/InsertValue/get through interfaces of different privileges, PushUpdate (injected database)} on keys inside/outside the subscribed prefix with values for which the where-condition holds or not and flags none/secret(/crownjewel); " +
 			"each history replayed on a fresh real database (hashmap, bbolt, runtime registry injected) and on a reference (lists of subscriptions and hooks, map of records); after every step feeds are drained, hook calls, result and raw storage compared; " +
-			"states de-duplicated on (reference state, controller's registered subscriptions and hooks, raw storage); deepest level check-only; " +
+			"states de-duplicated on (reference state, controller's registered subscriptions and hooks, raw storage); deepest level check-only and without subscribe/registerHook as last step (nothing to observe); " +
 			"non-trivial = histories whose last step delivered to a feed, called a hook, or cancelled a subscription or hook")
 		c.Assume("when several hooks are registered, each sees the record returned by the previous one (matching included); the harness's replacing hooks keep key, value and flags and only mark the record")
-		c.Assume("Interface.Delete is a get followed by a put of the record marked deleted: get-phase and put-phase hooks both apply to it")
+		c.Assume("Interface.Delete, MakeSecret and InsertValue are a get followed by a put of the modified record: get-phase and put-phase hooks both apply to them")
 		c.Assume("results that do not involve a hook (not found, permission denied, storage errors) are taken from the reference store only to predict deliveries; a disagreement there is reported as an engine error, not as a C14 violation")
 		c.Assume("interfaces without cache; feed buffer (1000) never filled; the writer-vs-Cancel interleaving clause is decided by engine S")
 
@@ -1396,6 +1437,18 @@ func explore(c *vlib.Ctx, pi int, pl plan) {
 				m.apply(o)
 			}
 			ops := m.enabled(pl.b)
+			if last {
+				// A subscribe or registerHook as the very last step has nothing to observe
+				// (its effect shows only in later operations): not run at the deepest level.
+				k := 0
+				for _, o := range ops {
+					if o.Kind != "sub" && o.Kind != "subq" && o.Kind != "hook" && o.Kind != "hookq" {
+						ops[k] = o
+						k++
+					}
+				}
+				ops = ops[:k]
+			}
 			local := map[string]int64{}
 			var out []succ
 			var nt int64
